@@ -40,10 +40,12 @@ def handleAsync (obs : List String) : Verdict := Id.run do
   let mut why := ""
   let mut keys : List String := []
   let mut tags : List String := []
+  let mut dropped := false          -- some injector lifetime has ended
   for tk in obs do
-    if tk == "D" then
+    if tk == "D" || tk == "P" then
       st := (step origPollsOf st Op.drop).1
-      tags := tags ++ ["drop"]
+      tags := tags ++ [if tk == "D" then "drop" else "unwind-drop"]
+      dropped := true
     else if tk.startsWith "F" then
       match ((tk.drop 1).toString.splitOn ":") with
       | [i, s] =>
@@ -71,12 +73,16 @@ def handleAsync (obs : List String) : Verdict := Id.run do
             if body != 0 then keys := keys ++ ["c14.original-body-ran"]
           | none =>
             tags := tags ++ [if st.isEmpty then "orig-await" else "sibling-await"]
-            if val != origValue i arg || body != 1 || evals != 0 || polls != origPollsOf i then keys := keys ++ ["c14.unfaked-disturbed"]
+            if val != origValue i arg || body != 1 || evals != 0 || polls != origPollsOf i then
+              keys := keys ++ ["c14.unfaked-disturbed"]
+              -- nothing is faked in the current lifetime and an earlier one has ended: C02's clause too
+              if st.isEmpty && dropped then keys := keys ++ ["c02.async-not-restored"]
           if others != 0 then keys := keys ++ ["c14.other-body-ran"]
         | _, _ => agree := false; if why == "" then why := "parse:" ++ tk
       | _ => agree := false
     else if tk == "CRASH" then
       agree := false; why := "process-died"; keys := keys ++ ["c14.crash"]
+      if st.isEmpty && dropped then keys := keys ++ ["c02.async-crash-after-drop"]
     else pure ()
   let ukeys := keys.eraseDups
   return { agree := agree, propOk := ukeys.isEmpty, branch := String.intercalate "+" ("async" :: tags.eraseDups),
